@@ -38,8 +38,8 @@ pub fn dispatch(cmd: &str, args: &Args) -> Option<i32> {
 // ------------------------------------------------------------------------------------------
 
 const CMR10: &[u8] = include_bytes!(concat!(
-    env!("CARGO_MANIFEST_DIR"),
-    "/../../repo/crates/tfm/corpus/computer-modern/cmr10.tfm"
+    env!("VH_REPO"),
+    "/crates/tfm/corpus/computer-modern/cmr10.tfm"
 ));
 
 struct Fonts {
@@ -712,8 +712,8 @@ fn replay(args: &Args) -> i32 {
 // ------------------------------------------------------------------------------------------
 
 const GOLDEN_DIR: &str = concat!(
-    env!("CARGO_MANIFEST_DIR"),
-    "/../../repo/crates/boxworks-knuthplass/testdata"
+    env!("VH_REPO"),
+    "/crates/boxworks-knuthplass/testdata"
 );
 
 /// Every `hbox` of every `*_want.txt` golden (written from real TeX's log by the repository's
